@@ -200,7 +200,7 @@ def merge(acc, snap):
     for k, v in (snap.get("inconclusive") or {}).items():
         acc["inconclusive"][k] = acc["inconclusive"].get(k, 0) + v
     for s in (snap.get("samples") or []):
-        if len(acc["samples"]) < 8:
+        if len(acc["samples"]) < 14:
             acc["samples"].append(s)
     for v in (snap.get("violations") or []):
         a = acc["violations"].setdefault(v["sig"], dict(sig=v["sig"], count=0, examples=[]))
@@ -208,8 +208,8 @@ def merge(acc, snap):
         for e in (v.get("examples") or []):
             if len(a["examples"]) < 3:
                 a["examples"].append(e)
-    if snap.get("rule"):
-        acc["rule"] = snap["rule"]
+    if snap.get("rule") and snap["rule"] not in acc["rule"]:
+        acc["rule"] = (acc["rule"] + " || " if acc["rule"] else "") + snap["rule"]
     for a in (snap.get("assumptions") or []):
         if a not in acc["assumptions"]:
             acc["assumptions"].append(a)
